@@ -46,6 +46,56 @@ def run(ctx, F, cg):
                 ctx.violation("R19", inst + "|log-only", where(r), "%s reaches %s which has no storage effect" % (name, hit))
             else:
                 ctx.ok("R19a", inst, "reaches %s (storage effect: C16)" % hit[0])
+    # ---- R19d: a failed persistence call is not acknowledged ---------------------------------------------
+    ctx.rule("R19d", "in a front end, the failing side of every persist_* call never reaches the success reply: from the Err arm of the call's result no path leads to the formatting of the result rows (an acknowledgement promises durability)")
+    n_p = 0
+    for name, prefix in FRONT_ENDS:
+        cs = [r for p, r in F.fns.items() if p.startswith(prefix) and r["coroutine"]]
+        if len(cs) != 1:
+            continue
+        r = cs[0]
+        b = Body(F.mir(r["path"]), r)
+        pcs = [c for c in b.calls() if c.path.startswith(PM + "persist_")]
+        for k, c in enumerate(pcs):
+            n_p += 1
+            inst = "%s|%s|%d" % (name, c.path.replace(PM, ""), k)
+            if c.target is None:
+                continue
+            # the switch on the discriminant of this call's result
+            err_t = None
+            for i in sorted(b.live_blocks()):
+                t = b.blocks[i]["t"]
+                if t[0] != "switch" or t[1][0] == "k":
+                    continue
+                ds = b.defs().get(t[1][1][0], [])
+                if len(ds) == 1 and ds[0][0] == "stmt" and ds[0][4][0] == "discr":
+                    src = ds[0][4][1][0]
+                    if src == c.dest[0] or src in b.forward_taint({c.dest[0]}, through_calls=lambda cc, ix: cc.path.rsplit("::", 1)[-1] in ("branch", "as_ref")):
+                        one = [tgt for v, tgt in t[2] if v == "1"]
+                        err_t = (i, one[0] if one else t[3])
+                        break
+            if err_t is None:
+                # result dropped or propagated with `?`: `?` is fine (from_residual reaches no success reply)
+                if any(cc.path.endswith("from_residual") and cc.bb in b.reachable(c.target) for cc in b.calls()):
+                    ctx.ok("R19d", inst, "result propagated with `?`")
+                else:
+                    ctx.violation("R19d", inst + "|result-ignored", where(r, c.line), "%s ignores the result of %s: a write that was not persisted is acknowledged" % (name, c.path.replace(PM, "")))
+                continue
+            sw, et = err_t
+            ok_reply = [cc for cc in b.calls() if cc.path.rsplit("::", 1)[-1] in ("format_query_result", "Json", "into_response") or cc.path.endswith("RespValue::Array")]
+            succ_blocks = {cc.bb for cc in ok_reply}
+            # success reply = blocks reachable from the Ok side that build the reply; the Err side must not reach any call that formats rows
+            fmt = {cc.bb for cc in b.calls() if cc.path.rsplit("::", 1)[-1] == "format_query_result"}
+            if not fmt:
+                ctx.anchor_failure("R19d", "%s: the call that formats the result rows (format_query_result)" % name)
+                continue
+            reach = b.reachable(et, avoid={sw})
+            if reach & fmt:
+                ctx.violation("R19d", inst + "|failure-acknowledged", where(r, c.line),
+                              "%s: when %s fails the handler still goes on to format and return the rows: the client is told the write succeeded although it will be missing after a restart (a quota refusal is ignored the same way)" % (name, c.path.replace(PM, "")))
+            else:
+                ctx.ok("R19d", inst, "the failing side never reaches the success reply")
+    ctx.floor("R19d", "persistence calls made by front ends", n_p, 2)
     # ---- R19c ------------------------------------------------------------------------------------------
     ss = [r for p, r in F.fns.items() if r["unit"] == "samyama.bin" and any(c == PM + "recover" for c in r["calls"])]
     if not ss:
